@@ -295,7 +295,10 @@ def check_density(rec, net, st_, rho, non_local, A, tag=""):
     else:
         rec.label("density:diag_above_selected")
     want = Fraction(float(rho)) * M
-    rec.check(Fraction(L) <= want, "density_not_exceeded" + sfx + tag,
+    # 1e-9 of a pair: a request like float(1/42) lies 1e-18 below 1/42 and
+    # int((1-rho)*M) may floor either way there - not this property's bit
+    rec.check(Fraction(L) <= want + Fraction(1, 10 ** 9),
+              "density_not_exceeded" + sfx + tag,
               "requested rho=%r (%.6f of %d ordered pairs) realised %d "
               "pairs = %.6f, selected threshold %r" % (
                   rho, float(want), M, L, L / float(M), t))
